@@ -402,7 +402,7 @@ fn builder_states(run: &Run, max_men: usize, rights_alpha: &[u8], ep_alpha: &[i8
 
 /// Structured builder families aimed at the individual clauses of is_sane-like validation.
 fn structured_builder_states(run: &Run) {
-    let rights_alpha: [u8; 6] = [0, WK, WK | WQ, BQ, BK, 15];
+    let rights_alpha: [u8; 6] = [0, WK, WQ, BK, BQ, 15];
     let ep_alpha: [i8; 4] = [-1, 0, 4, 7];
     // (a) both kings anywhere (adjacent included) plus one more man of any of the 12 kinds anywhere
     (0..64u8).into_par_iter().for_each(|wk| {
@@ -430,8 +430,9 @@ fn structured_builder_states(run: &Run) {
                         p.stm = stm;
                         bb.side_to_move(lcol(stm));
                         for &r in rights_alpha.iter() {
-                            // rights can only matter when a king stands on e1/e8: skip the rest except "none"
-                            if r != 0 && wk != 4 && bk != 60 {
+                            // rights can only matter when some king stands on e1 or e8 (either colour!):
+                            // skip the rest except "none"
+                            if r != 0 && ![4u8, 60].contains(&wk) && ![4u8, 60].contains(&bk) {
                                 continue;
                             }
                             p.castle = r;
